@@ -24,3 +24,14 @@ head["checks"] = checks
 head["not_applicable"] = sorted(na, key=lambda n: n["property_id"])
 json.dump(head, open(os.path.join(HERE, "MANIFEST.json"), "w"), indent=1)
 print("MANIFEST.json:", len(checks), "checks,", len(na), "not claimed")
+
+# known_findings.json is assembled from known_findings.d/*.json (edited by hand at development time only)
+kf = dict(comment="Genuine defects of meshplus/bitxhub reproduced on the real code by the checks and recorded rather than repaired (findings), "
+                  "and repaired ones (fixed). Each finding is identified by the specific input / call site / history that fails; a check prints "
+                  "KNOWN-FINDING for it and still reports any other violation of the same property. Assembled from known_findings.d/; never written at run time.",
+          findings=[], fixed=[])
+for f in sorted(glob.glob(os.path.join(HERE, "known_findings.d", "*.json"))):
+    d = json.load(open(f))
+    kf["findings"] += d.get("findings", [])
+    kf["fixed"] += d.get("fixed", [])
+json.dump(kf, open(os.path.join(HERE, "known_findings.json"), "w"), indent=1)
